@@ -263,10 +263,10 @@ Proof.
   - exact Hs.
 Qed.
 
-Lemma show_nil_good f : good (show_nil f).
+Lemma show_nil_eq f : show_nil f = ROk s_null.
 Proof.
   pose proof (nil_shown_ok_true f) as H. unfold nil_shown_ok in H. apply outcome_eqb_eq in H.
-  unfold show_nil. rewrite H. apply good_ok.
+  unfold show_nil. rewrite H. reflexivity.
 Qed.
 
 (* ---- map keys ---- *)
@@ -467,11 +467,33 @@ Section Main.
   Variable L : leaves.
   Variable f : showfn.
 
+  (* the property of results that is established: it must hold of the texts of the
+     leaves and be preserved by the array and object constructions *)
+  Variable G : result -> Prop.
+  Hypothesis Hnull : G (ROk s_null).
+  Hypothesis Hbool : forall b : bool, G (ROk (if b then s_true else s_false)).
+  Hypothesis HZ : forall z, G (ROk (dec_of_Z z)).
+  Hypothesis HN : forall n, G (ROk (dec_of_N n)).
+  Hypothesis Hfloat : forall c x, G (ROk (lf_float L c x)).
+  Hypothesis Hquoted : forall s, G (ROk (quoted L f s)).
+  Hypothesis Hb64 : forall b, G (ROk (q :: lf_base64 L b ++ [q])).
+  Hypothesis Hempty : G (ROk [q; q]).
+  Hypothesis Htime : forall x,
+    G (match f with
+       | FJS => match lf_time_js L x with Some b => ROk b | None => RPanic end
+       | FJSON => ROk (q :: lf_time_json L x ++ [q])
+       end).
+  Hypothesis Htrusted : forall c t v, G (ROk (lf_trusted L f c t v)).
+  Hypothesis Harray : forall rs, Forall G rs -> G (array_lit rs).
+  Hypothesis Hobject : forall ms, Forall (fun m : bytes * result => G (snd m)) ms -> G (object_lit L f ms).
+
+  Ltac gleaf := solve [apply Hnull | apply Hbool | apply HZ | apply HN | apply Hfloat | apply Hquoted | apply Hb64 | apply Hempty | apply Htrusted].
+
   Definition P (n : nat) : Prop :=
     forall v env t, (vsize v < n)%nat ->
       is_rec t = false -> is_iface t = false -> wf_tyb t = true -> env_ok f env ->
       static_rec f env t = OOk -> has_typeb env t v = true -> boxed_okb f v = true ->
-      good (show_val L f env t v).
+      G (show_val L f env t v).
 
   (* a position of static type tc inside a composite (environment env') *)
   Lemma show_at_good n env' tc x :
@@ -479,7 +501,7 @@ Section Main.
     (is_rec tc = true \/ static_rec f env' tc = OOk) ->
     match resolve env' tc with Some (e', t') => has_typeb e' t' x | None => false end = true ->
     boxed_okb f x = true -> (vsize x < n)%nat ->
-    good (show_at_with f (show_val L f) env' tc x).
+    G (show_at_with f (show_val L f) env' tc x).
   Proof.
     intros HP He Hw Hst Hty Hbox Hsz. unfold show_at_with.
     destruct (resolve env' tc) as [[e' t'] |] eqn:R; [| discriminate Hty].
@@ -488,7 +510,7 @@ Section Main.
     - (* an interface position: the dynamic value *)
       destruct t'; try (vm_compute in Hi; discriminate Hi). unfold is_iface in Hi. cbn [kind_of] in Hi.
       destruct x; cbn [has_typeb] in Hty; apply andb_true_iff in Hty; destruct Hty as [_ Hty]; rewrite Hi in Hty; try discriminate Hty.
-      + apply show_nil_good.
+      + rewrite show_nil_eq. apply Hnull.
       + repeat (apply andb_true_iff in Hty; destruct Hty as [Hty ?Hc]).
         apply negb_true_iff in Hty. apply negb_true_iff in Hc3. rewrite Hty, Hc3. cbn [orb].
         cbn [boxed_okb] in Hbox. apply andb_true_iff in Hbox. destruct Hbox as [Hb1 Hb2]. apply outcome_eqb_eq in Hb1.
@@ -511,7 +533,7 @@ Section Main.
         struct_members (fun fi ft fv =>
           field_member L fi (match resolve (t :: env) ft with Some (_, t') => Some t' | None => None end) fv
                        (show_at_with f (show_val L f) (t :: env) ft fv)) fs vs = Some ms /\
-        Forall (fun m : bytes * result => good (snd m)) ms.
+        Forall (fun m : bytes * result => G (snd m)) ms.
   Proof.
     intros HP He fs. induction fs as [| [fi ft] fs' IH]; intros vs Hw Hex Hty Hbox Hsz; destruct vs as [| fv vs']; cbn [typed_fields] in Hty; try discriminate Hty.
     - exists []. split; [reflexivity | constructor].
@@ -527,7 +549,7 @@ Section Main.
                        (show_at_with f (show_val L f) (t :: env) ft fv))) in *.
       rewrite Hms.
       unfold field_member. destruct (f_exported fi) eqn:Hexp; [| exists ms; split; [reflexivity | exact Hgood]].
-      assert (Hshown : good (show_at_with f (show_val L f) (t :: env) ft fv)).
+      assert (Hshown : G (show_at_with f (show_val L f) (t :: env) ft fv)).
       { pose proof (field_facts f fi (static_rec f (t :: env) ft)) as [_ Hc]. cbv zeta in Hc.
         specialize (Hc Echk Hexp).
         apply (show_at_good n); try assumption; [right; exact Hc | lia]. }
@@ -543,7 +565,7 @@ Section Main.
   Qed.
 
   Lemma Forall_map_good {A} (g : A -> result) xs :
-    (forall x, In x xs -> good (g x)) -> Forall good (map g xs).
+    (forall x, In x xs -> G (g x)) -> Forall G (map g xs).
   Proof.
     intro H. induction xs as [| x xs IH]; simpl; constructor.
     - apply H. left. reflexivity.
@@ -573,35 +595,35 @@ Section Main.
     destruct (eval_tree (dyn_val false (Some t)) (tree_assoc (show_tbl f) (kind_of t))) as [ | | | | | g | c str | c | ] eqn:Eo; try discriminate HQ.
     - (* the kind switch *)
       destruct str.
-      + rewrite HQ. apply good_ok.
+      + rewrite HQ. apply Hquoted.
       + unfold class_req in HQ.
         destruct (c =? k_Bool) eqn:E1.
         { apply N.eqb_eq in HQ. destruct t; try (vm_compute in HQ; discriminate HQ). cbn [kind_of] in HQ. subst k.
           pose proof (typed_leaf env k_Bool fl v ltac:(vm_compute; reflexivity) Hty) as Hsh.
-          destruct v; try apply good_ok; try contradiction; try discriminate Hsh; try (vm_compute in Hsh; discriminate Hsh);
+          destruct v; try gleaf; try contradiction; try discriminate Hsh; try (vm_compute in Hsh; discriminate Hsh);
             repeat (destruct Hsh as [Hsh | Hsh]; try discriminate Hsh). }
         destruct (c =? k_Int) eqn:E2.
         { destruct t; try (vm_compute in HQ; discriminate HQ). cbn [kind_of wf_tyb] in *. apply N.ltb_lt in Hw.
           pose proof (typed_leaf env _ fl v Hw Hty) as Hsh.
           enum_kind k Hw; try (vm_compute in HQ; discriminate HQ);
-            destruct v; try apply good_ok; exfalso; vm_compute in Hsh; try contradiction; try discriminate Hsh;
+            destruct v; try gleaf; exfalso; vm_compute in Hsh; try contradiction; try discriminate Hsh;
             repeat (destruct Hsh as [Hsh | Hsh]; try discriminate Hsh). }
         destruct (c =? k_Uint) eqn:E3.
         { destruct t; try (vm_compute in HQ; discriminate HQ). cbn [kind_of wf_tyb] in *. apply N.ltb_lt in Hw.
           pose proof (typed_leaf env _ fl v Hw Hty) as Hsh.
           enum_kind k Hw; try (vm_compute in HQ; discriminate HQ);
-            destruct v; try apply good_ok; exfalso; vm_compute in Hsh; try contradiction; try discriminate Hsh;
+            destruct v; try gleaf; exfalso; vm_compute in Hsh; try contradiction; try discriminate Hsh;
             repeat (destruct Hsh as [Hsh | Hsh]; try discriminate Hsh). }
         destruct ((c =? k_Float32) || (c =? k_Float64)) eqn:E4.
         { destruct t; try (vm_compute in HQ; discriminate HQ). cbn [kind_of wf_tyb] in *. apply N.ltb_lt in Hw.
           pose proof (typed_leaf env _ fl v Hw Hty) as Hsh.
           enum_kind k Hw; try (vm_compute in HQ; discriminate HQ);
-            destruct v; try apply good_ok; exfalso; vm_compute in Hsh; try contradiction; try discriminate Hsh;
+            destruct v; try gleaf; exfalso; vm_compute in Hsh; try contradiction; try discriminate Hsh;
             repeat (destruct Hsh as [Hsh | Hsh]; try discriminate Hsh). }
         destruct (c =? k_String) eqn:E5.
         { apply N.eqb_eq in HQ. destruct t; try (vm_compute in HQ; discriminate HQ). cbn [kind_of] in HQ. subst k.
           pose proof (typed_leaf env k_String fl v ltac:(vm_compute; reflexivity) Hty) as Hsh.
-          destruct v; try apply good_ok; try contradiction; try discriminate Hsh; try (vm_compute in Hsh; discriminate Hsh);
+          destruct v; try gleaf; try contradiction; try discriminate Hsh; try (vm_compute in Hsh; discriminate Hsh);
             repeat (destruct Hsh as [Hsh | Hsh]; try discriminate Hsh). }
         destruct (c =? k_Slice) eqn:E6.
         { apply andb_true_iff in HQ. destruct HQ as [Hk Helem].
@@ -612,8 +634,8 @@ Section Main.
           assert (Hff : showfn_eqb f f = true) by (destruct f; reflexivity). rewrite Hff, Hrelem in Hv.
           assert (Hse : static_rec f (TSlice fl t :: env) t = OOk) by (destruct (static_rec f (TSlice fl t :: env) t); try discriminate Hv; reflexivity).
           destruct v; cbn [has_typeb] in Hty; apply andb_true_iff in Hty; destruct Hty as [_ Hty];
-            destruct (flag (TSlice fl t) w_ByteSlice) eqn:Fb; try discriminate Hty; try apply good_ok.
-          cbn [kids_of]. apply array_lit_good. apply Forall_map_good. intros x Hx.
+            destruct (flag (TSlice fl t) w_ByteSlice) eqn:Fb; try discriminate Hty; try gleaf.
+          cbn [kids_of]. apply Harray. apply Forall_map_good. intros x Hx.
           rewrite forallb_forall in Hty. cbn [boxed_okb] in Hbox. rewrite forallb_forall in Hbox.
           apply (show_at_good n); try assumption;
             try solve [cbn [wf_tyb] in Hw; exact Hw | right; exact Hse | apply (Hty x Hx) | apply (Hbox x Hx)
@@ -627,28 +649,23 @@ Section Main.
           assert (Hff : showfn_eqb f f = true) by (destruct f; reflexivity). rewrite Hff, Hrelem in Hv.
           assert (Hse : static_rec f (TArr fl t :: env) t = OOk) by (destruct (static_rec f (TArr fl t :: env) t); try discriminate Hv; reflexivity).
           destruct v; cbn [has_typeb] in Hty; apply andb_true_iff in Hty; destruct Hty as [_ Hty]; try discriminate Hty.
-          cbn [kids_of]. apply array_lit_good. apply Forall_map_good. intros x Hx.
+          cbn [kids_of]. apply Harray. apply Forall_map_good. intros x Hx.
           rewrite forallb_forall in Hty. cbn [boxed_okb] in Hbox. rewrite forallb_forall in Hbox.
           apply (show_at_good n); try assumption;
             try solve [cbn [wf_tyb] in Hw; exact Hw | right; exact Hse | apply (Hty x Hx) | apply (Hbox x Hx)
                       | pose proof (in_list_sum vsize x xs Hx); cbn [vsize] in Hsz; lia]. }
         destruct (c =? k_Pointer) eqn:E8.
         { pose proof (typed_composite_kind env t v Hty) as Hck.
-          apply orb_true_iff in HQ. destruct HQ as [HQ | HQ].
-          - apply andb_true_iff in HQ. destruct HQ as [Hk Helem].
-            destruct t; try (vm_compute in Hk; discriminate Hk).
-            { cbn [kind_of] in Hk. apply N.eqb_eq in Hk. destruct Hck as [_ [_ [Hck _]]]. contradiction. }
-            pose proof (asg_true_sound _ _ _ Hss Helem) as Hv. cbn [static_val] in Hv.
-            assert (Hff : showfn_eqb f f = true) by (destruct f; reflexivity). rewrite Hff, Hrelem in Hv.
-            assert (Hse : static_rec f (TPtr fl t :: env) t = OOk) by (destruct (static_rec f (TPtr fl t :: env) t); try discriminate Hv; reflexivity).
-            destruct v; cbn [has_typeb] in Hty; apply andb_true_iff in Hty; destruct Hty as [_ Hty]; try discriminate Hty; try apply good_ok.
-            cbn [kids_of]. cbn [boxed_okb] in Hbox.
-            apply (show_at_good n); try assumption;
-              try solve [cbn [wf_tyb] in Hw; exact Hw | right; exact Hse | cbn [vsize] in Hsz; lia].
-          - destruct t; try (vm_compute in HQ; discriminate HQ). cbn [kind_of] in HQ. apply N.eqb_eq in HQ. subst k.
-            pose proof (typed_leaf env k_UnsafePointer fl v ltac:(vm_compute; reflexivity) Hty) as Hsh.
-            destruct v; try apply good_ok; try apply good_panic; try contradiction; try discriminate Hsh; try (vm_compute in Hsh; discriminate Hsh);
-              repeat (destruct Hsh as [Hsh | Hsh]; try discriminate Hsh). }
+          apply andb_true_iff in HQ. destruct HQ as [Hk Helem].
+          destruct t; try (vm_compute in Hk; discriminate Hk).
+          { cbn [kind_of] in Hk. apply N.eqb_eq in Hk. destruct Hck as [_ [_ [Hck _]]]. contradiction. }
+          pose proof (asg_true_sound _ _ _ Hss Helem) as Hv. cbn [static_val] in Hv.
+          assert (Hff : showfn_eqb f f = true) by (destruct f; reflexivity). rewrite Hff, Hrelem in Hv.
+          assert (Hse : static_rec f (TPtr fl t :: env) t = OOk) by (destruct (static_rec f (TPtr fl t :: env) t); try discriminate Hv; reflexivity).
+          destruct v; cbn [has_typeb] in Hty; apply andb_true_iff in Hty; destruct Hty as [_ Hty]; try discriminate Hty; try gleaf.
+          cbn [kids_of]. cbn [boxed_okb] in Hbox.
+          apply (show_at_good n); try assumption;
+            try solve [cbn [wf_tyb] in Hw; exact Hw | right; exact Hse | cbn [vsize] in Hsz; lia]. }
         destruct (c =? k_Struct) eqn:E9.
         { apply andb_true_iff in HQ. destruct HQ as [HQ Hnt]. apply andb_true_iff in HQ. destruct HQ as [Hk Hl].
           pose proof (typed_composite_kind env t v Hty) as Hck.
@@ -660,7 +677,7 @@ Section Main.
           destruct v; cbn [has_typeb] in Hty; apply andb_true_iff in Hty; destruct Hty as [_ Hty]; rewrite Hft in Hty; try discriminate Hty.
           cbn [kids_of]. cbn [boxed_okb] in Hbox. cbn [wf_tyb] in Hw. cbn [vsize] in Hsz.
           destruct (struct_good n env (TStruct fl fs) IHn He' fs fs0 Hw Hloop Hty Hbox ltac:(lia)) as [ms [Hms Hgood]].
-          rewrite Hms. apply object_lit_good. exact Hgood. }
+          rewrite Hms. apply Hobject. exact Hgood. }
         destruct (c =? k_Map) eqn:E10; [| discriminate HQ].
         { apply andb_true_iff in HQ. destruct HQ as [HQ Hkey]. apply andb_true_iff in HQ. destruct HQ as [Hk Helem].
           pose proof (typed_composite_kind env t v Hty) as Hck.
@@ -670,13 +687,13 @@ Section Main.
           assert (Hff : showfn_eqb f f = true) by (destruct f; reflexivity). rewrite Hff, Hrelem in Hv.
           assert (Hse : static_rec f (TMap fl t1 t2 :: env) t2 = OOk) by (destruct (static_rec f (TMap fl t1 t2 :: env) t2); try discriminate Hv; reflexivity).
           cbn [wf_tyb] in Hw. apply andb_true_iff in Hw. destruct Hw as [Hw1 Hw2].
-          destruct v; cbn [has_typeb] in Hty; apply andb_true_iff in Hty; destruct Hty as [_ Hty]; try discriminate Hty; try apply good_ok.
+          destruct v; cbn [has_typeb] in Hty; apply andb_true_iff in Hty; destruct Hty as [_ Hty]; try discriminate Hty; try gleaf.
           cbn [kids_of]. cbn [boxed_okb] in Hbox. rewrite forallb_forall in Hty, Hbox. cbn [vsize] in Hsz.
           set (kf := fun kx : value * value => (key_at L f (TMap fl t1 t2 :: env) t1 (fst kx), show_at_with f (show_val L f) (TMap fl t1 t2 :: env) t2 (snd kx))).
           assert (Hkeys : forall kx, In kx kvs -> exists b, fst (kf kx) = ROk b).
           { intros kx Hin. specialize (Hty kx Hin). apply andb_true_iff in Hty. destruct Hty as [Hty1 _].
             unfold kf. cbn [fst]. apply (key_at_ok L f env fl t1 t2 relem loop ss (fst kx) Hss Hkey Hw1 He' Hty1). }
-          assert (Hvals : forall kx, In kx kvs -> good (snd (kf kx))).
+          assert (Hvals : forall kx, In kx kvs -> G (snd (kf kx))).
           { intros kx Hin. specialize (Hty kx Hin). apply andb_true_iff in Hty. destruct Hty as [_ Hty2].
             unfold kf. cbn [snd]. apply (show_at_good n); try assumption;
               try solve [right; exact Hse | apply (Hbox kx Hin)
@@ -684,7 +701,7 @@ Section Main.
           assert (Hfk : first_key_error (map fst (map kf kvs)) = None).
           { clear - Hkeys. induction kvs as [| kx r IH]; [reflexivity |]. cbn [map first_key_error].
             destruct (Hkeys kx (or_introl eq_refl)) as [b Hb]. rewrite Hb. apply IH. intros y Hy. apply Hkeys. right. exact Hy. }
-          rewrite Hfk. apply object_lit_good. apply sort_kv_Forall.
+          rewrite Hfk. apply Hobject. apply sort_kv_Forall.
           clear - Hvals. induction kvs as [| kx r IH]; [constructor |]. cbn [map]. constructor.
           - cbn [snd]. apply Hvals. left. reflexivity.
           - apply IH. intros y Hy. apply Hvals. right. exact Hy. }
@@ -696,7 +713,16 @@ Section Main.
         destruct v; cbn [has_typeb] in Hty; apply andb_true_iff in Hty; destruct Hty as [Hwf Hty];
           unfold wf_flags in Hwf; rewrite Hft in Hwf; cbn [negb orb] in Hwf; apply andb_true_iff in Hwf; destruct Hwf as [Hwf _];
           destruct t; try discriminate Hwf; rewrite Hft in Hty; try discriminate Hty.
-        destruct f; [destruct (lf_time_js L x); [apply good_ok | apply good_panic] | apply good_ok].
-      + apply negb_true_iff in Hc1. rewrite Hc1. apply good_ok.
+        apply (Htime x).
+      + apply negb_true_iff in Hc1. rewrite Hc1. apply Htrusted.
   Qed.
 End Main.
+
+(* C09: nothing but `not a cannot show error and the model applies` *)
+Theorem show_val_good' L f : forall n, P L f good n.
+Proof.
+  apply show_val_good; intros; try apply good_ok.
+  - destruct f; [destruct (lf_time_js L x); [apply good_ok | apply good_panic] | apply good_ok].
+  - apply array_lit_good. assumption.
+  - apply object_lit_good. assumption.
+Qed.
